@@ -108,6 +108,8 @@ def run(tier):
                  "edit, committed-instance replacement, wrong key / k / transcript hash, (thorough) every single-bit "
                  "flip; distinct = distinct (proof, edit) pairs, identity controls excluded"),
         "samples": [r for r in rows if r.get("ev") == "Tamper"][:3] + [runs[0][0]["sc"]],
+        "edits_that_changed_nothing": sum(1 for r in rows if r.get("ev") in ("Tamper", "STamper") and r["what"]["t"] != "identity"
+                                          and r["proof_same"] and r["stmt_same"] and r["key_same"]),
         "proofs": len(runs), "stdlib_entry_point_tampers": sum(1 for r in rows if r.get("ev") == "STamper"),
         "tamper_classes": {"/".join(k): v for k, v in sorted(kinds.items())},
         "model_states": mc["distinct"],
